@@ -2072,6 +2072,15 @@ class Engine:
             return z3.Select(cont, to_z3(x, _type_of_sort(cont.sort().domain())))
         if isinstance(cont, z3.ExprRef) and cont.sort() == z3.StringSort() and (isinstance(x, str) or (isinstance(x, z3.ExprRef) and x.sort() == z3.StringSort())):
             return z3.Contains(cont, self.pystr(x))  # (C14) `sub in s` on str values: substring test
+        if isinstance(cont, str) and isinstance(x, str):
+            return z3.BoolVal(x in cont)
+        if isinstance(cont, str) and self.c.consts.get('__text_operands__') and isinstance(x, z3.ExprRef) and x.sort() == U:
+            # (C14) `x in 'literal'` is Python's SUBSTRING test (`('auth')` is the str 'auth', not a 1-tuple).  For a str-valued
+            # x it is true exactly if x equals one of the finitely many substrings of the literal, the empty one included.
+            # Opt-in per contract (consts['__text_operands__']: the contract states that its opaque operands of `in <str>` are
+            # text; for any other value Python raises TypeError, which is not modelled) - without it this stays Undecided.
+            subs = sorted({cont[i:j] for i in range(len(cont) + 1) for j in range(i, len(cont) + 1)})
+            return z3.Or(*[self.equal(x, s) for s in subs])
         raise Undecided('membership in %r' % (cont,))
 
     def ev_BinOp(self, node, st):
@@ -3087,7 +3096,12 @@ class Engine:
             if meth == 'append':
                 et = recv.et or type_of_value(args[0])
                 arr = recv.arr if recv.arr is not None else z3.Const(fresh_name('arr'), z3.ArraySort(z3.IntSort(), sort_of(et)))
-                new = SList(recv.len + 1, z3.Store(arr, recv.len, to_z3(args[0], et)), et)
+                elem = to_z3(args[0], et)
+                if isinstance(elem, z3.ExprRef) and not elem.sort().eq(arr.sort().range()):
+                    # (C14) a list holds elements of one sort: appending a value of another sort is outside the subset (undecided),
+                    # not a crash of the checker
+                    raise Undecided('append of a %s to a list of %s (line %s)' % (type_key(type_of_value(args[0])), type_key(et), getattr(node, 'lineno', '?')))
+                new = SList(recv.len + 1, z3.Store(arr, recv.len, elem), et)
                 self.assign(target, new, st)
                 return None
             if meth in ('popleft',) or (meth == 'pop' and args and isinstance(args[0], int) and args[0] == 0):
